@@ -1201,9 +1201,27 @@ def state_check(ctx, obj, cur, after, label):
                                          model_state=trlib.to_line(cur))))
       ctx.log('STATE %s: after %s the spec object reads %s, a fresh object in the model\'s state reads %s' % (label, after, a, b))
 
+def frozen_partial(tree):
+  """some spec inside is frozen to a value that contains MISSING_VALUE.  extend compares such values with ==, and the
+  typed MissingValue(spec) objects inside them compare by their spec: that identity is outside the model (one PMissing)."""
+  n, d, fz = _m(tree)
+  if fz and d and not total(d[0]): return True
+  k = tree[0]
+  if k == 5: return frozen_partial(tree[1])
+  if k in (6, 9): return any(frozen_partial(e) for e in tree[1])
+  if k == 7 and tree[1]: return any(frozen_partial(f[1]) for f in tree[1][0])
+  return False
+
+def outside_model_extend(ctx, ct, bt):
+  if frozen_partial(ct) and frozen_partial(bt):
+    ctx.hist('outside_model', 'extend of two specs frozen to values containing MISSING_VALUE (typed MissingValue identity)')
+    return True
+  return False
+
 def run_sequence(ctx, label, ct, bt, vals, flags, add_case, hit, rng):
   """apply-before-extend, is_compatible before/after, extend, apply-after, extend again - all on the same objects;
   every step is also a model case on the state the model predicts."""
+  if outside_model_extend(ctx, ct, bt): return 0
   child, base = build(ct), build(bt)
   cur = ct
   n = 0
@@ -1471,6 +1489,7 @@ def run(ctx):
       if out[0]:
         if vals is None: vals = values_for(at, rng, 30) + values_for(bt, rng, 30)
         noracle += check_compat(x, y, vals, hit, dict(op='compat', a=xt, b=yt))
+      if outside_model_extend(ctx, xt, yt): continue
       out, r = impl_extend(build(xt), build(yt))
       d = dict(op='extend', c=xt, b=yt, c_text=show(xt), b_text=show(yt))
       add_case([flags, 2, xt, yt], out, d, 'extend')
